@@ -313,3 +313,12 @@ func constStringOf(pkg *packages.Package, name string) string {
 
 	return constant.StringVal(c.Val())
 }
+
+// constantInt64 returns the int64 value of an integer constant.
+func constantInt64(v constant.Value) (int64, bool) {
+	if v == nil || v.Kind() != constant.Int {
+		return 0, false
+	}
+
+	return constant.Int64Val(v)
+}
